@@ -9,11 +9,13 @@ VERIF = os.path.dirname(HERE)
 src = json.load(open(os.path.join(HERE, "manifest_src.json")))
 props = [json.loads(l) for l in open(os.path.join(VERIF, "properties.jsonl"))]
 ids = [p["id"] for p in props]
+hold_path = os.path.join(HERE, "hold.txt")
+hold = set(open(hold_path).read().split()) if os.path.exists(hold_path) else set()
 checks = []
 claimed = set()
 for pid in ids:
     cp = os.path.join(HERE, "manifest.d", "%s.json" % pid)
-    if not os.path.exists(cp):
+    if not os.path.exists(cp) or pid in hold:
         continue
     c = json.load(open(cp))
     claimed.add(pid)
